@@ -58,9 +58,10 @@ def entry_obs(rng, pool, v, rel=0.03):
         idls = []
         for n in names:
             full = list(pool[n])
-            if SUBLISTS[0] in ('A', 'B') and len(full) >= 10 and len(full) % 2 == 0:
-                # equally many, but different configurations: the two halves / every other configuration
-                halves = (full[:len(full) // 2], full[len(full) // 2:]) if SPLIT[0] == 'halves' else (full[0::2], full[1::2])
+            if SUBLISTS[0] in ('A', 'B') and len(full) >= 10:
+                # equally many, but different configurations: the two halves / every other configuration (of an even number of them)
+                even = full[:2 * (len(full) // 2)]
+                halves = (even[:len(even) // 2], even[len(even) // 2:]) if SPLIT[0] == 'halves' else (even[0::2], even[1::2])
                 idls.append([int(c) for c in halves[0 if SUBLISTS[0] == 'A' else 1]])
             elif SUBLISTS[0] is True and len(full) >= 10 and rng.random() < 0.3:
                 kind = str(rng.choice(['first', 'second', 'odd', 'even', 'random']))
@@ -138,7 +139,7 @@ def values_matrix(rng, m, n=None, kind='general'):
     return u @ S @ v.T
 
 
-def obs_matrix(rng, pool, vals, plain_frac=0.0, symmetric=False, common_lists=False):
+def obs_matrix(rng, pool, vals, plain_frac=0.0, symmetric=False, common_lists=False, force_split=False):
     m, n = vals.shape
     M = np.empty((m, n), dtype=object)
     # (with whole replicas missing AND different configuration sets the result of a step-by-step product depends on the order of the
@@ -147,7 +148,7 @@ def obs_matrix(rng, pool, vals, plain_frac=0.0, symmetric=False, common_lists=Fa
     common_lists = common_lists or multi_rep
     sub = bool(rng.random() < 0.35) and m * n > 1 and not common_lists
     keep_full = (int(rng.integers(0, m)), int(rng.integers(0, n)))
-    equal_split = bool(rng.random() < 0.25) and m * n > 1 and not common_lists and not symmetric and plain_frac == 0.0
+    equal_split = (force_split or bool(rng.random() < 0.25)) and m * n > 1 and not common_lists and not symmetric and plain_frac == 0.0
     SPLIT[0] = str(rng.choice(['halves', 'alternate']))
     count = 0
     for i in range(m):
@@ -200,7 +201,7 @@ def cases_for(rng, n, ctx):
         if op in ('matmul', 'at'):
             nf = int(rng.integers(2, 5))
             dims = [int(rng.integers(1, 5)) for _ in range(nf + 1)] if op == 'at' else [m] * (nf + 1)   # linalg.matmul: square factors of one size
-            mats = [obs_matrix(rng, pool, values_matrix(rng, dims[k], dims[k + 1]), plain_frac=plain if op == 'at' else 0.0) for k in range(nf)]
+            mats = [obs_matrix(rng, pool, values_matrix(rng, dims[k], dims[k + 1]), plain_frac=plain if op == 'at' else 0.0, force_split=(op == 'matmul' and (i // len(ops)) % 2 == 1)) for k in range(nf)]
             if op == 'matmul':
                 r = framed([mats], lambda: pe.linalg.matmul(*mats))
             else:
@@ -234,7 +235,7 @@ def cases_for(rng, n, ctx):
             res = {'k': 'exc', 't': type(r).__name__} if isinstance(r, Exception) else {'k': 'ok', 'm': pcm(r, pool)}
             cases.append({'id': cid + ['', '-realfactor', '-plainentries'][mixed], 'ev': 'matmul', 'complex': True, 'ops': [pcm(x, pool) for x in mats], 'res': res})
         elif op == 'inv':
-            A = obs_matrix(rng, pool, values_matrix(rng, m), plain_frac=0.0)
+            A = obs_matrix(rng, pool, values_matrix(rng, m), plain_frac=0.0, force_split=(i // len(ops)) % 2 == 0)
             r = framed([A], lambda: pe.linalg.inv(A))
             res = {'k': 'exc', 't': type(r).__name__} if isinstance(r, Exception) else {'k': 'ok', 'm': pm(r, pool)}
             cases.append({'id': cid, 'ev': 'inv', 'complex': False, 'a': pm(A, pool), 'res': res})
